@@ -36,9 +36,29 @@ def _vertex_max(p: Poly, label_polys: list[Poly], L: int) -> int:
     return best
 
 
+def pair_encoders(prog) -> list:
+    """functions that take (prediction array, reference array, reference labels): the anchor encoder and
+    whatever further helper of that signature the package has (contingency tables, ...)"""
+    out = [prog.func("_functionals:_calc_overlapping_labels")]
+    for f in prog.package_functions():
+        if f.cls is not None or f.parent is not None or f in out:
+            continue
+        roles = set()
+        for p in f.call_params:
+            lp = p.name.lower()
+            roles.add("pred_arr" if lp.startswith(("pred", "prediction")) and "label" not in lp else "ref_labels" if lp.startswith("ref") and "label" in lp else "ref_arr" if lp.startswith(("ref", "reference")) else "other:" + lp)
+        if roles == {"pred_arr", "ref_arr", "ref_labels"} and len(f.call_params) == 3:
+            out.append(f)
+    return out
+
+
 def check_codec_width(ctx: Ctx):
+    for f in pair_encoders(ctx.prog):
+        _check_codec_width(ctx, f)
+
+
+def _check_codec_width(ctx: Ctx, f):
     prog = ctx.prog
-    f = prog.func("_functionals:_calc_overlapping_labels")
     role = {}
     for p in f.params:
         lp = p.name.lower()
@@ -278,10 +298,10 @@ def check_other_arithmetic(ctx: Ctx):
     analysed pointwise.  Metric kernels work on boolean masks and are excluded by module."""
     prog = ctx.prog
     n_sites = 0
-    covered = {prog.func(q).qual for q in COVERED}
+    covered = {prog.func(q).qual for q in COVERED} | {g.qual for g in pair_encoders(prog)}
     # helpers the covered functions call are inlined by the pointwise runs (R09.1 / R09.2), so
     # their arithmetic is analysed there
-    work = [prog.func(q) for q in COVERED]
+    work = [prog.func(q) for q in COVERED] + [g for g in pair_encoders(prog)]
     for _ in range(3):
         nxt = []
         for g in work:
